@@ -22,22 +22,48 @@ open L0
 /-- name and modifier of the rule a name refers to -/
 def sigOf (G : Grammar) (n : String) : Option (String × Nat) := (G.lookup n).map fun r => (r.name, r.mod)
 
+/-- the context of a node: the signature of the rule table, and whether the rule whose body the
+    node belongs to is atomic whatever its caller (`@`, `$`, a trivia rule) -/
+structure Cx where
+  sig : String → Option (String × Nat)
+  fa : Bool
+
+/-- the body of this rule runs with implicit trivia off, whoever calls it -/
+def forced (r : Rule) : Bool := ruleAtomic r.name r.mod false
+
+theorem forced_all {n : String} {m : Nat} (h : ruleAtomic n m false = true) (b : Bool) :
+    ruleAtomic n m b = true := by
+  unfold ruleAtomic at h ⊢
+  by_cases h1 : (hasBit m ATOMIC || hasBit m COMPOUND || L1.isTriviaName n) = true
+  · simp [h1]
+  · simp only [h1, Bool.false_eq_true, ↓reduceIte] at h
+    by_cases h2 : hasBit m NONATOMIC = true
+    · simp [h2] at h
+    · simp [h2] at h
+
+/-- the body of an embedded rule object is not itself a rule object or a reference -/
+def rootOK : Expr → Prop
+  | .rule _ _ _ _ => False
+  | .ident _ _ => False
+  | _ => True
+
 /-- node-local well-formedness, relative to the signature `sg` of the rule table.
-    Embedded rule nodes are the shared built-in objects: `with_children` returns `self`, they are
-    silent (except `EOI`) and never atomic / non-atomic; `ANY`'s body is `_Any`; a Unicode property
-    rule carries its own name.  References: never to `ANY` / `SKIP` by name; an untagged reference
-    to a silent rule is a reference to a rule that does not switch atomicity (so not to a silent
-    `WHITESPACE` / `COMMENT`).  A `Choice` has at least one alternative.  A range is not reversed
+    Embedded rule nodes are the built-in objects: they are silent (except `EOI`) and never atomic /
+    non-atomic, their body is not directly another rule object or a reference; `ANY`'s body is
+    `_Any`; a Unicode property rule carries its own name.  References: never to `ANY` / `SKIP` by name; an untagged reference
+    to a silent rule is a reference to a rule that does not switch atomicity there (so not to a
+    silent `WHITESPACE` / `COMMENT`, unless the referring rule is itself atomic: `sg.fa`).  A `Choice` has at least one alternative.  A range is not reversed
     (`Range.__init__` compiles `[a-b]`, which raises for `a > b`).  An `OptimizedChoice` (only the
     optimizer makes them) is not empty and not the repeating kind (that one is the body of `SKIP`). -/
-def NodeOK (sg : String → Option (String × Nat)) : Expr → Prop
+def NodeOK (sg : Cx) : Expr → Prop
   | .rule n m sm b =>
-    sm = true ∧ hasBit m ATOMIC = false ∧ hasBit m COMPOUND = false ∧ hasBit m NONATOMIC = false ∧
+    rootOK b ∧ hasBit m ATOMIC = false ∧ hasBit m COMPOUND = false ∧ hasBit m NONATOMIC = false ∧
     L1.isTriviaName n = false ∧ (n ≠ "EOI" → hasBit m SILENT = true) ∧ (n = "EOI" → b = .eoiB) ∧
     (∀ pn, b = .uprop pn → pn = n) ∧ (n = "ANY" → b = .anyB)
   | .ident n t =>
     n ≠ "ANY" ∧ n ≠ "SKIP" ∧
-    (t = none → ∀ nm md, sg n = some (nm, md) → hasBit md SILENT = true → ∀ a, ruleAtomic nm md a = a)
+    (t = none → ∀ nm md, sg.sig n = some (nm, md) → hasBit md SILENT = true →
+      ∀ a, (sg.fa = true → a = true) → ruleAtomic nm md a = a)
   | .choice es => es ≠ []
   | .range a b => a ≤ b
   | .optChoice alts star => star = false ∧ alts ≠ [] ∧ ∀ a ∈ alts, AltOK a
@@ -56,16 +82,55 @@ theorem AllNL.transfer {P Q : Expr → Prop} {es es' : List Expr} (hl : es.lengt
     AllNL Q es' :=
   AllNL.of_index fun i hi => f i (by omega) hi (AllNL.index h i (by omega))
 
-variable {F : Feat} {G : Grammar} {sg : String → Option (String × Nat)}
+variable {F : Feat} {G : Grammar} {sg : Cx}
+
+theorem NodeOK.mono {s : String → Option (String × Nat)} {fa fa' : Bool} {x : Expr}
+    (h : NodeOK ⟨s, fa⟩ x) (hle' : fa = true → fa' = true) :
+    NodeOK ⟨s, fa'⟩ x := by
+  cases x with
+  | ident n t =>
+    simp only [NodeOK] at h ⊢
+    refine ⟨h.1, h.2.1, fun ht nm md hs hsil a ha => ?_⟩
+    by_cases hf : fa = true
+    · exact h.2.2 ht nm md hs hsil a (fun _ => ha (hle' hf))
+    · exact h.2.2 ht nm md hs hsil a (fun hx => absurd hx hf)
+  | _ => exact h
+
+/-- what a rewrite can do to the body of an embedded rule object -/
+theorem TR.root_facts {a : Bool} {b b' : Expr} (h : TR F G a b b') (hr : rootOK b) :
+    rootOK b' ∧ (∀ pn, b' = .uprop pn → b = .uprop pn) ∧ (b = .eoiB → b' = .eoiB) ∧ (b = .anyB → b' = .anyB) := by
+  cases h with
+  | term _ => exact ⟨hr, fun _ h => h, id, id⟩
+  | ident => exact absurd hr id
+  | rule => exact absurd hr id
+  | ruleC _ _ => exact absurd hr id
+  | inlB _ _ _ => exact absurd hr id
+  | inlS _ _ _ _ => exact absurd hr id
+  | skip _ hpat =>
+    obtain ⟨_, _, _, _, _, he, _⟩ := hpat
+    subst he
+    exact ⟨trivial, (fun _ h => by cases h), (fun h => by cases h), (fun h => by cases h)⟩
+  | _ => exact ⟨trivial, (fun _ h => by cases h), (fun h => by cases h), (fun h => by cases h)⟩
 
 /-- rewriting preserves node well-formedness -/
 theorem TR.allN {a : Bool} {e e' : Expr} (h : TR F G a e e')
-    (hG : ∀ n r, n ≠ "SKIP" → G.lookup n = some r → AllN (NodeOK sg) r.body) :
+    (hsig : ∀ n, sigOf G n = sg.sig n)
+    (hG : ∀ n r, n ≠ "SKIP" → G.lookup n = some r → AllN (NodeOK ⟨sg.sig, forced r⟩) r.body) :
     AllN (NodeOK sg) e → AllN (NodeOK sg) e' := by
   induction h with
   | term _ => exact id
   | ident => exact id
   | rule => exact id
+  | @ruleC n m sm b b' hra h1 ih =>
+    intro h
+    have hn : NodeOK sg (.rule n m sm b) := h.1
+    simp only [NodeOK] at hn
+    obtain ⟨h0, h2, h3, h4, h5, h6, h7, h8, h9⟩ := hn
+    obtain ⟨r1, r2, r3, r4⟩ := h1.root_facts h0
+    refine ⟨?_, ih h.2⟩
+    show NodeOK sg (.rule n m sm b')
+    simp only [NodeOK]
+    exact ⟨r1, h2, h3, h4, h5, h6, fun hn => r3 (h7 hn), fun pn hb => h8 pn (r2 pn hb), fun hn => r4 (h9 hn)⟩
   | @seq es es' hl hh ih =>
     intro h
     simp only [AllN] at h ⊢
@@ -116,7 +181,23 @@ theorem TR.allN {a : Bool} {e e' : Expr} (h : TR F G a e e')
     exact ⟨trivial, AllNL.append (AllNL.replicate this _)
       (AllNL.replicate (show AllN (NodeOK sg) (.opt _) from ⟨trivial, this⟩) _)⟩
   | inlB _ _ _ ih => intro h; simp only [AllN] at h; exact ih h.2
-  | inlS hl _ _ _ ih => intro h; exact ih (hG _ _ h.2.1 hl)
+  | @inlS n r b' hl hsil _ _ ih =>
+    intro h
+    apply ih
+    have hbody := hG _ _ h.2.1 hl
+    have hsg : sg.sig n = some (r.name, r.mod) := by
+      rw [← hsig n]; simp only [sigOf, hl, Option.map_some]
+    have hcl := (h : NodeOK sg (.ident n none)).2.2 rfl _ _ hsg hsil
+    cases hfa : sg.fa with
+    | false =>
+      have hf : forced r = false := hcl false (by rw [hfa]; intro hx; cases hx)
+      rw [hf] at hbody
+      have : sg = ⟨sg.sig, false⟩ := by cases sg; simp_all
+      rw [this]; exact hbody
+    | true =>
+      have : sg = ⟨sg.sig, true⟩ := by cases sg; simp_all
+      rw [this]
+      exact AllN.imp (fun x hx => NodeOK.mono hx (fun _ => rfl)) hbody
   | squash _ _ _ hpat _ =>
     intro _
     obtain ⟨k, hk, hne, _, hall⟩ := hpat
@@ -130,31 +211,33 @@ theorem TR.totalBody {a : Bool} {e e' : Expr} (h : TR F G a e e') (ht : totalBod
 
 /-! ### same root, related children -/
 
-inductive Cong1 (R : Expr → Expr → Prop) : Expr → Expr → Prop
-  | term {e} : isTerm e = true → Cong1 R e e
-  | ident {n t} : Cong1 R (.ident n t) (.ident n t)
-  | rule {n m sm b} : Cong1 R (.rule n m sm b) (.rule n m sm b)
+inductive Cong1 (a : Bool) (R : Expr → Expr → Prop) : Expr → Expr → Prop
+  | term {e} : isTerm e = true → Cong1 a R e e
+  | ident {n t} : Cong1 a R (.ident n t) (.ident n t)
+  | rule {n m sm b} : Cong1 a R (.rule n m sm b) (.rule n m sm b)
+  | ruleC {n m sm b b'} : ruleAtomic n m a = a → R b b' → Cong1 a R (.rule n m sm b) (.rule n m sm b')
   | seq {es es'} : es.length = es'.length →
-      (∀ i (h1 : i < es.length) (h2 : i < es'.length), R es[i] es'[i]) → Cong1 R (.seq es) (.seq es')
+      (∀ i (h1 : i < es.length) (h2 : i < es'.length), R es[i] es'[i]) → Cong1 a R (.seq es) (.seq es')
   | choice {es es'} : es.length = es'.length →
-      (∀ i (h1 : i < es.length) (h2 : i < es'.length), R es[i] es'[i]) → Cong1 R (.choice es) (.choice es')
-  | opt {e e'} : R e e' → Cong1 R (.opt e) (.opt e')
-  | rep {e e'} : R e e' → Cong1 R (.rep e) (.rep e')
-  | rep1 {e e'} : R e e' → Cong1 R (.rep1 e) (.rep1 e')
-  | repExact {e e' n} : R e e' → Cong1 R (.repExact e n) (.repExact e' n)
-  | repMin {e e' n} : R e e' → Cong1 R (.repMin e n) (.repMin e' n)
-  | repMax {e e' n} : R e e' → Cong1 R (.repMax e n) (.repMax e' n)
-  | repMinMax {e e' m n} : R e e' → Cong1 R (.repMinMax e m n) (.repMinMax e' m n)
-  | andP {e e'} : R e e' → Cong1 R (.andP e) (.andP e')
-  | notP {e e'} : R e e' → Cong1 R (.notP e) (.notP e')
-  | group {e e' t} : R e e' → Cong1 R (.group e t) (.group e' t)
-  | push {e e'} : R e e' → Cong1 R (.push e) (.push e')
+      (∀ i (h1 : i < es.length) (h2 : i < es'.length), R es[i] es'[i]) → Cong1 a R (.choice es) (.choice es')
+  | opt {e e'} : R e e' → Cong1 a R (.opt e) (.opt e')
+  | rep {e e'} : R e e' → Cong1 a R (.rep e) (.rep e')
+  | rep1 {e e'} : R e e' → Cong1 a R (.rep1 e) (.rep1 e')
+  | repExact {e e' n} : R e e' → Cong1 a R (.repExact e n) (.repExact e' n)
+  | repMin {e e' n} : R e e' → Cong1 a R (.repMin e n) (.repMin e' n)
+  | repMax {e e' n} : R e e' → Cong1 a R (.repMax e n) (.repMax e' n)
+  | repMinMax {e e' m n} : R e e' → Cong1 a R (.repMinMax e m n) (.repMinMax e' m n)
+  | andP {e e'} : R e e' → Cong1 a R (.andP e) (.andP e')
+  | notP {e e'} : R e e' → Cong1 a R (.notP e) (.notP e')
+  | group {e e' t} : R e e' → Cong1 a R (.group e t) (.group e' t)
+  | push {e e'} : R e e' → Cong1 a R (.push e) (.push e')
 
-theorem TR.of_cong1 {a : Bool} {e x : Expr} (h : Cong1 (TR F G a) e x) : TR F G a e x := by
+theorem TR.of_cong1 {a : Bool} {e x : Expr} (h : Cong1 a (TR F G a) e x) : TR F G a e x := by
   cases h with
   | term ht => exact .term ht
   | ident => exact .ident
   | rule => exact .rule
+  | ruleC hra h => exact .ruleC hra h
   | seq hl hh => exact .seq hl hh
   | choice hl hh => exact .choice hl hh
   | opt h => exact .opt h
@@ -169,6 +252,12 @@ theorem TR.of_cong1 {a : Bool} {e x : Expr} (h : Cong1 (TR F G a) e x) : TR F G 
   | group h => exact .group h
   | push h => exact .push h
 
+theorem nodeOK_ra {n : String} {m : Nat} {sm : Bool} {b : Expr} (h : NodeOK sg (.rule n m sm b))
+    (a : Bool) : ruleAtomic n m a = a := by
+  simp only [NodeOK] at h
+  obtain ⟨_, h2, h3, h4, h5, _⟩ := h
+  simp [ruleAtomic, h2, h3, h4, h5]
+
 /-! ### bottom-up traversal -/
 
 theorem mapBottomUpL_eq (f : Expr → Expr) : ∀ es, Opt.mapBottomUpL f es = es.map (Opt.mapBottomUp f)
@@ -177,13 +266,16 @@ theorem mapBottomUpL_eq (f : Expr → Expr) : ∀ es, Opt.mapBottomUpL f es = es
 
 mutual
 theorem bottomUp_TR (f : Expr → Expr) (a : Bool)
-    (hroot : ∀ e x, AllN (NodeOK sg) e → Cong1 (TR F G a) e x → TR F G a e (f x)) :
+    (hroot : ∀ e x, AllN (NodeOK sg) e → Cong1 a (TR F G a) e x → TR F G a e (f x)) :
     ∀ (e : Expr), AllN (NodeOK sg) e → TR F G a e (Opt.mapBottomUp f e)
   | .rule n m sm b, h => by
-    have hsm : sm = true := h.1.1
-    subst hsm
-    simp only [Opt.mapBottomUp, ↓reduceIte]
-    exact hroot _ _ h .rule
+    cases sm with
+    | true =>
+      simp only [Opt.mapBottomUp, ↓reduceIte]
+      exact hroot _ _ h .rule
+    | false =>
+      simp only [Opt.mapBottomUp, Bool.false_eq_true, ↓reduceIte]
+      exact hroot _ _ h (.ruleC (nodeOK_ra h.1 a) (bottomUp_TR f a hroot b h.2))
   | .seq es, h => by
     simp only [Opt.mapBottomUp, mapBottomUpL_eq]
     exact hroot _ _ h (.seq (by simp) fun i h1 h2 => by
@@ -225,7 +317,7 @@ theorem bottomUp_TR (f : Expr → Expr) (a : Bool)
   | .skipUntil _, h => by simp only [Opt.mapBottomUp]; exact hroot _ _ h (.term rfl)
   | .optChoice _ _, h => by simp only [Opt.mapBottomUp]; exact hroot _ _ h (.term rfl)
 theorem bottomUp_TRL (f : Expr → Expr) (a : Bool)
-    (hroot : ∀ e x, AllN (NodeOK sg) e → Cong1 (TR F G a) e x → TR F G a e (f x)) :
+    (hroot : ∀ e x, AllN (NodeOK sg) e → Cong1 a (TR F G a) e x → TR F G a e (f x)) :
     ∀ (es : List Expr), AllNL (NodeOK sg) es → ∀ i (h : i < es.length),
       TR F G a es[i] (Opt.mapBottomUp f es[i])
   | [], _, i, h => by simp at h
@@ -250,15 +342,20 @@ theorem AllN.children {P : Expr → Prop} {x : Expr} (h : AllN P x) : ∀ c ∈ 
   case choice => exact AllNL.mem h.2 c hc
   all_goals (subst hc; exact h.2)
 
-theorem withChildren_cong1 {R : Expr → Expr → Prop} (T : Expr → Expr) (x : Expr)
-    (hsm : ∀ n m sm b, x = .rule n m sm b → sm = true) (h : ∀ c ∈ Opt.children x, R c (T c)) :
-    Cong1 R x (Opt.withChildren x ((Opt.children x).map T)) := by
+theorem withChildren_cong1 {a : Bool} {R : Expr → Expr → Prop} (T : Expr → Expr) (x : Expr)
+    (hsm : ∀ n m sm b, x = .rule n m sm b → ruleAtomic n m a = a) (h : ∀ c ∈ Opt.children x, R c (T c)) :
+    Cong1 a R x (Opt.withChildren x ((Opt.children x).map T)) := by
   cases x with
   | rule n m sm b =>
-    have := hsm n m sm b rfl
-    subst this
-    simp only [Opt.withChildren, ↓reduceIte]
-    exact .rule
+    have hra := hsm n m sm b rfl
+    cases sm with
+    | true =>
+      simp only [Opt.withChildren, ↓reduceIte]
+      exact .rule
+    | false =>
+      simp only [Opt.withChildren, Bool.false_eq_true, ↓reduceIte, Opt.children, List.map_cons, List.map_nil,
+        List.headD_cons]
+      exact .ruleC hra (h b (by simp [Opt.children]))
   | seq es =>
     simp only [Opt.withChildren, Opt.children]
     exact .seq (by simp) fun i h1 h2 => by
@@ -283,7 +380,7 @@ theorem withChildren_cong1 {R : Expr → Expr → Prop} (T : Expr → Expr) (x :
 
 theorem topDown_TR (f : Expr → Expr) (a : Bool) (I : Expr → Prop)
     (hI_f : ∀ e, I e → I (f e)) (hI_ch : ∀ x, I x → ∀ c ∈ Opt.children x, I c)
-    (hI_sm : ∀ n m sm b, I (.rule n m sm b) → sm = true)
+    (hI_sm : ∀ n m sm b, I (.rule n m sm b) → ruleAtomic n m a = a)
     (hpre : ∀ e x', I e → TR F G a (f e) x' → TR F G a e x') :
     ∀ k e, I e → TR F G a e (Opt.mapTopDown f k e) := by
   intro k
@@ -313,7 +410,8 @@ def NotPOK (G : Grammar) : Expr → Prop
 structure Inv (F : Feat) (sg : String → Option (String × Nat)) (G : Grammar) : Prop where
   sig : ∀ n, sigOf G n = sg n
   /-- every body is well-formed; the fused rule of the WHITESPACE case is the one exception -/
-  nodes : ∀ r ∈ G.rules, AllN (NodeOK sg) r.body ∨ (r.name = "SKIP" ∧ ∃ alts, r.body = .optChoice alts true)
+  nodes : ∀ r ∈ G.rules, AllN (NodeOK ⟨sg, forced r⟩) r.body ∨
+    (r.name = "SKIP" ∧ ∃ alts, r.body = .optChoice alts true)
   /-- a rule called `SKIP` is the fused trivia rule -/
   skipMod : ∀ r ∈ G.rules, r.name = "SKIP" → hasBit r.mod ATOMIC = true
   /-- the fused trivia rule exists only where a trivia rule is defined -/
@@ -329,8 +427,8 @@ theorem lookup_name {G : Grammar} {n : String} {r : Rule} (h : G.lookup n = some
   have := List.find?_some h
   simpa using this
 
-theorem Inv.lookup_nodes (h : Inv F sg G) (n : String) (r : Rule) (hn : n ≠ "SKIP") (hl : G.lookup n = some r) :
-    AllN (NodeOK sg) r.body := by
+theorem Inv.lookup_nodes {sg : String → Option (String × Nat)} (h : Inv F sg G) (n : String) (r : Rule)
+    (hn : n ≠ "SKIP") (hl : G.lookup n = some r) : AllN (NodeOK ⟨sg, forced r⟩) r.body := by
   rcases h.nodes r (lookup_mem hl) with h1 | ⟨h1, _⟩
   · exact h1
   · rw [lookup_name hl] at h1; exact absurd h1 hn
@@ -340,11 +438,12 @@ theorem Inv.lookup_nodes (h : Inv F sg G) (n : String) (r : Rule) (hn : n ≠ "S
 theorem unroll_term {x : Expr} (ht : isTerm x = true) : Opt.unroll x = x := by
   cases x <;> simp [isTerm] at ht <;> rfl
 
-theorem unroll_root {a : Bool} {e x : Expr} (h : Cong1 (TR F G a) e x) : TR F G a e (Opt.unroll x) := by
+theorem unroll_root {a : Bool} {e x : Expr} (h : Cong1 a (TR F G a) e x) : TR F G a e (Opt.unroll x) := by
   cases h with
   | term ht => rw [unroll_term ht]; exact .term ht
   | ident => exact .ident
   | rule => exact .rule
+  | ruleC hra h => exact .ruleC hra h
   | seq hl hh => exact .seq hl hh
   | choice hl hh => exact .choice hl hh
   | opt h => exact .opt h
@@ -369,8 +468,9 @@ theorem unroll_TR (a : Bool) (e : Expr) (he : AllN (NodeOK sg) e) :
 
 /-! ### inline_silent_rules -/
 
-theorem inlineSilent_root (hinv : Inv F sg G) {a : Bool} {e x : Expr} (he : AllN (NodeOK sg) e)
-    (h : Cong1 (TR F G a) e x) :
+theorem inlineSilent_root (hsig : ∀ n, sigOf G n = sg.sig n) {a : Bool} (hfa : sg.fa = true → a = true)
+    {e x : Expr} (he : AllN (NodeOK sg) e)
+    (h : Cong1 a (TR F G a) e x) :
     TR F G a e ((Opt.inlineSilent G.rules x).getD (.ident "!KeyError" none)) := by
   cases h with
   | @ident n t =>
@@ -386,13 +486,14 @@ theorem inlineSilent_root (hinv : Inv F sg G) {a : Bool} {e x : Expr} (he : AllN
         subst ht
         have hn := he.root
         simp only [NodeOK] at hn
-        have hsg : sg n = some (r.name, r.mod) := by
-          rw [← hinv.sig n]; simp only [sigOf, Grammar.lookup, hl, Option.map_some]
-        exact .inlS hl hs (hn.2.2 trivial _ _ hsg hs a) (TR.refl F G _ _)
+        have hsg : sg.sig n = some (r.name, r.mod) := by
+          rw [← hsig n]; simp only [sigOf, Grammar.lookup, hl, Option.map_some]
+        exact .inlS hl hs (hn.2.2 trivial _ _ hsg hs a hfa) (TR.refl F G _ _)
       · simp only [hc, Bool.false_eq_true, ↓reduceIte, Option.getD_some]
         exact .ident
   | term ht => cases e <;> simp [isTerm] at ht <;> exact .term rfl
   | rule => exact .rule
+  | ruleC hra h => exact .ruleC hra h
   | seq hl hh => exact .seq hl hh
   | choice hl hh => exact .choice hl hh
   | opt h => exact .opt h
@@ -407,9 +508,10 @@ theorem inlineSilent_root (hinv : Inv F sg G) {a : Bool} {e x : Expr} (he : AllN
   | group h => exact .group h
   | push h => exact .push h
 
-theorem inlineSilent_TR (hinv : Inv F sg G) (a : Bool) (e : Expr) (he : AllN (NodeOK sg) e) :
+theorem inlineSilent_TR (hsig : ∀ n, sigOf G n = sg.sig n) (a : Bool) (hfa : sg.fa = true → a = true)
+    (e : Expr) (he : AllN (NodeOK sg) e) :
     TR F G a e (Opt.mapBottomUp (fun x => (Opt.inlineSilent G.rules x).getD (.ident "!KeyError" none)) e) :=
-  bottomUp_TR _ a (fun _ _ he h => inlineSilent_root hinv he h) e he
+  bottomUp_TR _ a (fun _ _ he h => inlineSilent_root hsig hfa he h) e he
 
 /-! ### inline_builtin -/
 
@@ -425,7 +527,7 @@ theorem inlineBuiltin_TR (a : Bool) (k : Nat) (e : Expr) (he : AllN (NodeOK sg) 
       · exact he
     | _ => exact he
   · intro n m sm b h
-    exact h.1.1
+    exact nodeOK_ra h.1 a
   · intro e x' he h
     cases e with
     | rule n m sm b =>
